@@ -200,7 +200,24 @@ def step(ex, st, T):
         # a user-defined iterator struct whose `next` only forwards to the `next` of one of its fields (checked on its MIR)
         fi = delegating_field(ex, T[1])
         if fi is None:
-            raise NotConcrete("iterator struct %s" % T[1])
+            # not a plain forwarding struct: run its own `next` on a scratch location holding the iterator value
+            nf = None
+            for im in ex.facts.impls_of("core::iter::traits::iterator::Iterator"):
+                if im["self_ty"].split("<")[0] == T[1] and im.get("crate") in ("geo", "geo_types", "geo_verif_roots"):
+                    nf = ex.facts.impl_fn(im, "next")
+            if nf is None:
+                raise NotConcrete("iterator struct %s" % T[1])
+            ptr = ("scratch-iter", st.fresh())
+            st.mem[("S", ptr)] = T
+            for s2, kind, val in ex.call_fn(nf, [ptr], st, None):
+                if kind != "ret":
+                    raise NotConcrete("next() of %s does not return" % T[1])
+                adv = s2.mem.pop(("S", ptr), T)
+                v = val
+                if v[0] != "adt" or v[1] != "core::option::Option":
+                    raise NotConcrete("next() of %s returns a symbolic Option" % T[1])
+                yield s2, (None if v[2] == "None" else v[3][0]), adv
+            return
         mapper = _DELEG_MAP.get(T[1])
         for s2, it, inner2 in step(ex, st, T[3][fi]):
             fields = list(T[3])
@@ -358,9 +375,29 @@ def step(ex, st, T):
                             yield s4, payload, ("call", T[1], (inner2, a[1]))
         yield from nxt2(st, a[0])
         return
+    if len(a) == 1 and T[1].count("::") >= 1:
+        # a trait method that builds an iterator from a concrete geo value (`g.coords_iter()` inside a generic helper iterator, left
+        # unresolved in polymorphic MIR): resolved by the concrete type of the receiver and inlined
+        recv = a[0]
+        for _ in range(8):
+            if recv[0] == "ref":
+                recv = ex.load(st, recv[1])
+            elif recv[0] in ("&", "deref"):
+                recv = recv[1]
+            else:
+                break
+        if recv[0] == "adt":
+            for im in ex.facts.impls:
+                if im.get("trait") and im["self_ty"].split("<")[0] == recv[1] and im["trait"].rsplit("::", 1)[-1] in T[1] and im.get("crate") in ("geo", "geo_types"):
+                    g = ex.facts.impl_fn(im, m)
+                    if g is not None and g.arg_count == 1:
+                        for s2, kind, val in ex.call_fn(g, [("&", recv)], st, None):
+                            if kind == "ret":
+                                yield from step(ex, s2, val)
+                        return
     if m in ("lines", "coords", "points", "rev_lines", "triangles"):
         raise NotConcrete("uninlined geo iterator %s" % m)
-    raise NotConcrete("adaptor %s" % m)
+    raise NotConcrete("adaptor %s [%s; %d args: %s]" % (m, T[1], len(a), [str(x)[:60] for x in a]))
 
 
 def fork_option(ex, st, v):
@@ -467,6 +504,14 @@ def consumer(ex, st, call, args):
                     else:
                         yield s3, acc + 1, None
         return _consume(ex, st, T, on_item, lambda s, acc: _ret(s, NONE), 0)
+    if m == "sum" and len(args) == 1:
+        def add(s_, acc, it):
+            it = ex.canon(s_, it)
+            if acc[0] == "const" and it[0] == "const" and not isinstance(it[1], bool):
+                yield s_, ("const", acc[1] + it[1]), None
+            else:
+                yield s_, ("bin", "Add", acc, it), None
+        return _consume(ex, st, T, add, lambda s_, acc: _ret(s_, acc), ("const", 0))
     if m == "count" and len(args) == 1:
         return _consume(ex, st, T, lambda s, acc, it: iter([(s, acc + 1, None)]), lambda s, acc: _ret(s, ("const", acc)), 0)
     if m == "fold" and len(args) == 3:
